@@ -153,16 +153,18 @@ def make_jobs(ctx, ct, fmts, quick):
         if quick:
             k = rng.randrange(len(rates))
             for ch in chans:
-                for n in ct.lengths[:-1]:
+                for n in (ct.lengths[:-1] if ch <= 8 else (0, 1, 3)):
                     k += 1
                     jobs.append(Job(ct, f, ch, rates[k % len(rates)], split(n), rng.choice([0, 3, 99999]), rng.random() < 0.3, rng))
             for sr in rates:
                 jobs.append(Job(ct, f, rng.choice(chans), sr, split(rng.choice([1, 2, 3, 4, 7])), rng.choice([0, 12345]), rng.random() < 0.3, rng))
-            jobs.append(Job(ct, f, rng.choice(chans), rng.choice(rates), split(ct.lengths[-1]), 0, False, rng))
+            jobs.append(Job(ct, f, rng.choice([c for c in chans if c <= 8]), rng.choice(rates), split(ct.lengths[-1]), 0, False, rng))
         else:
             for ch in chans:
                 for sr in rates:
-                    for n in ct.lengths:
+                    for n in (ct.lengths if ch <= 8 else (0, 1, 3)):
+                        if ch > 8 and sr not in (44100, 2 ** 24 + 1, 2 ** 31 - 1):
+                            continue
                         jobs.append(Job(ct, f, ch, sr, split(n), rng.choice([0, 3, 99999]), rng.random() < 0.3, rng))
         if ct.path_route:
             exts = ["", "a", "iff", "8svx", "x" * 11, "y" * 40] if not quick else ["", "a", "iff", rng.choice(["8svx", "x" * 11, "y" * 40])]
@@ -357,7 +359,71 @@ class Avr(Container):
         return out
 
 
-CONTAINERS = [Avr()]
+# ---------------------------------------------------------------- IRCAM
+
+def f32_round(sr):
+    """(int) (float) sr as the x86-64 conversions compute it; None when the result is not a positive int"""
+    v = struct.unpack(">f", struct.pack(">f", float(sr)))[0]
+    return int(v) if 1 <= v < 2 ** 31 else None
+
+
+class Ircam(Container):
+    name, major = "ircam", 0x0A
+    codecs = (0x02, 0x04, 0x06, 0x10, 0x11)
+    channels = (1, 2, 3, 127, 128, 200, 255, 256)
+    KF_RATE, KF_CH = "KF-C10-ircam-rate", "KF-IRCAM-BE-CHANNELS"
+
+    def big(self, f):
+        return f.endian == FM.BE
+
+    def expected_word(self, f):
+        return (0x20000000 if self.big(f) else 0x10000000) | (self.major << 16) | f.codec
+
+    def expected_rate(self, job):
+        """C04 allows the documented quantisation: the rate field is a binary32 number"""
+        q = f32_round(job.sr)
+        return q if q is not None else job.sr
+
+    def rate_known(self, job, reopen_line):
+        if reopen_line.startswith("open=NULL"):
+            if self.big(job.f) and 128 <= job.ch <= 255:
+                return self.KF_CH
+            if job.sr >= 2 ** 31 - 64:
+                return self.KF_RATE
+        return None
+
+    def size_fields(self, job, final, fr):
+        if len(final) != 1024 + job.n * job.bw:
+            return ["file length %d, header 1024 + %d audio bytes expected" % (len(final), job.n * job.bw)]
+        return []
+
+    def hdr_end(self, b):
+        return 1024
+
+    def mutants(self, job, b, rng, full):
+        out = truncations(b, 1024, rng, full, always=(12, 13, 15, 16, 17, 1023, 1024))
+        big = self.big(job.f)
+        pk = ">I" if big else "<I"
+        for v in (0, 1, 2, 127, 128, 255, 256, 1024, 1025, 0x10000, 0x01000000, 0x80000000, 0xFFFFFFFF, 0x00040000, 0x00000400, 0x00000401, 0x01040000):
+            out.append(("ch=%d" % v, put(b, 8, struct.pack(pk, v))))
+            out.append(("ch-swapped=%d" % v, put(b, 8, struct.pack("<I" if big else ">I", v))))
+        for v in (0, 2, 4, 0x10001, 0x20001, 0x40004, 0x40002, 1, 3, 0x02000000, 0x04000400, rng.randrange(2 ** 32)):
+            out.append(("enc=%x" % v, put(b, 12, struct.pack(pk, v))))
+            out.append(("enc-swapped=%x" % v, put(b, 12, struct.pack("<I" if big else ">I", v))))
+        pats = [0, 0x80000000, 1, 0x007FFFFF, 0x00800000, 0x3F7FFFFF, 0x3F800000, 0x3FFFFFFF, 0x40000000, 0xBF800000, 0x4EFFFFFF, 0x4F000000, 0xCF000000, 0xCF000001,
+                0x7F7FFFFF, 0x7F800000, 0x7FC00000, 0xFF800000, 0x7F800001, 0x4B7FFFFF, 0x4B800000, 0x46FFFE00, 0x3FC00000, 0x402FFFFF]
+        pats += [rng.randrange(2 ** 32) for _ in range(8 if full else 3)]
+        for v in pats:
+            out.append(("rate=%08x" % v, put(b, 4, struct.pack(">I" if big else "<I", v))))
+        for m in (b"\x64\xa3\x00\x00", b"\x64\xa3\x01\x00", b"\x64\xa3\x04\x00", b"\x64\xa3\x07\x00", b"\x64\xa3\x08\x00", b"\x00\x00\xa3\x64", b"\x00\x03\xa3\x64",
+                  b"\x00\x07\xa3\x64", b"\x00\x08\xa3\x64", b"\x64\xa3\x02\x01", b"\x64\xa3\x03\x00", b"\x64\xa3\x02\x00"):
+            out.append(("magic=%s" % m.hex(), m + b[4:]))
+        out.append(("append-1", b + b"\x01"))
+        out.append(("append-5", b + b"\x01\x02\x03\x04\x05"))
+        return out
+
+
+CONTAINERS = [Avr(), Ircam()]
 
 
 def run(ctx, found=False):
